@@ -3,6 +3,7 @@ from pv import judges, lifecycle, plans, programs
 
 ID = 'C04'
 TITLE = 'kill never lost / no unkillable process'
+ANCHORS = ['plumpy.processes:Process.kill', 'plumpy.processes:Process._set_interrupt_action', 'plumpy.processes:Process._create_interrupt_action', 'plumpy.processes:Process.step', 'plumpy.process_states:Waiting.interrupt', 'plumpy.futures:CancellableAction.run']
 LEVEL = 'exploration'
 TECHNIQUE = 'runtime monitoring: history monitor on kill requests with bounded-progress check at loop quiescence and a final probing kill'
 RULE = ('programs x sequences of K<=2 (thorough: sampled K=3,4) requests from {pause,play,resume,kill,cancel-future} containing a kill, at every '
